@@ -253,3 +253,194 @@ package gonum
 //@       (n == 0 || (ge(a, row, col, lda) && ge(b, row, col, ldb) && ge(c, n, n, ldc)))
 //@ panics iff !valid, before-writes
 //@ writes c[i*ldc+j] for i in 0..n, j in 0..n if (ul == blas.Upper && j >= i) || (ul == blas.Lower && j <= i)
+
+// ---- complex routines (complex128 and complex64 twins) -------------------------
+
+//@ spec flagTH(t int) bool = t == blas.NoTrans || t == blas.ConjTrans
+//@ spec flagTS(t int) bool = t == blas.NoTrans || t == blas.Trans
+
+//@ func Implementation.Dzasum Implementation.Scasum Implementation.Dznrm2 Implementation.Scnrm2 props: C01(frame) C07(safety)
+//@ requires !(n < 0 && incX < 0)
+//@ valid incX != 0 && n >= 0 && (incX < 0 || vec(x, n, incX))
+//@ panics iff !valid, before-writes
+//@ writes nothing
+
+//@ func Implementation.Izamax Implementation.Icamax props: C01(frame) C07(safety)
+//@ requires !(n < 0 && incX < 0)
+//@ valid incX != 0 && n >= 0 && (incX < 0 || vec(x, n, incX))
+//@ panics iff !valid, before-writes
+//@ writes nothing
+//@ ensures incX < 0 || n == 0 ==> result == -1
+//@ ensures incX > 0 && n > 0 ==> 0 <= result && result < n
+
+//@ func Implementation.Zaxpy Implementation.Caxpy Implementation.Zcopy Implementation.Ccopy props: C01(frame) C07(safety)
+//@ valid incX != 0 && incY != 0 && n >= 0 && vec(x, n, incX) && vec(y, n, incY)
+//@ panics iff !valid, before-writes
+//@ writes y[start(n,incY)+k*incY] for k in 0..n
+
+//@ func Implementation.Zdotc Implementation.Cdotc Implementation.Zdotu Implementation.Cdotu props: C01(frame) C07(safety)
+//@ valid incX != 0 && incY != 0 && n >= 0 && vec(x, n, incX) && vec(y, n, incY)
+//@ panics iff !valid, before-writes
+//@ writes nothing
+
+//@ func Implementation.Zdscal Implementation.Csscal Implementation.Zscal Implementation.Cscal props: C01(frame) C07(safety)
+//@ requires !(n < 0 && incX < 0)
+//@ valid incX != 0 && n >= 0 && (incX < 0 || vec(x, n, incX))
+//@ panics iff !valid, before-writes
+//@ writes x[k*incX] for k in 0..n if incX > 0
+
+//@ func Implementation.Zswap Implementation.Cswap props: C01(frame) C07(safety)
+//@ valid incX != 0 && incY != 0 && n >= 0 && vec(x, n, incX) && vec(y, n, incY)
+//@ panics iff !valid, before-writes
+//@ writes x[start(n,incX)+k*incX] for k in 0..n ; y[start(n,incY)+k*incY] for k in 0..n
+
+//@ func Implementation.Zgbmv Implementation.Cgbmv props: C01(frame) C07(safety)
+//@ let lenX = ite(trans == blas.NoTrans, n, m)
+//@ let lenY = ite(trans == blas.NoTrans, m, n)
+//@ valid flagT(trans) && m >= 0 && n >= 0 && kL >= 0 && kU >= 0 && lda >= kL+kU+1 && incX != 0 && incY != 0 &&
+//@       (m == 0 || n == 0 || (len(a) >= lda*(min(m, n+kL)-1)+kL+kU+1 && vec(x, lenX, incX) && vec(y, lenY, incY)))
+//@ panics iff !valid, before-writes
+//@ writes y[start(lenY,incY)+k*incY] for k in 0..lenY
+
+//@ func Implementation.Zgemv Implementation.Cgemv props: C01(frame) C07(safety)
+//@ let lenX = ite(trans == blas.NoTrans, n, m)
+//@ let lenY = ite(trans == blas.NoTrans, m, n)
+//@ valid flagT(trans) && m >= 0 && n >= 0 && lda >= max(1, n) && incX != 0 && incY != 0 &&
+//@       (m == 0 || n == 0 || (ge(a, m, n, lda) && vec(x, lenX, incX) && vec(y, lenY, incY)))
+//@ panics iff !valid, before-writes
+//@ writes y[start(lenY,incY)+k*incY] for k in 0..lenY
+
+//@ func Implementation.Zgerc Implementation.Cgerc Implementation.Zgeru Implementation.Cgeru props: C01(frame) C07(safety)
+//@ valid m >= 0 && n >= 0 && lda >= max(1, n) && incX != 0 && incY != 0 &&
+//@       (m == 0 || n == 0 || (vec(x, m, incX) && vec(y, n, incY) && ge(a, m, n, lda)))
+//@ panics iff !valid, before-writes
+//@ writes a[i*lda+j] for i in 0..m, j in 0..n
+
+//@ func Implementation.Zhbmv Implementation.Chbmv props: C01(frame) C07(safety)
+//@ valid flagUL(uplo) && n >= 0 && k >= 0 && lda >= k+1 && incX != 0 && incY != 0 &&
+//@       (n == 0 || (len(a) >= lda*(n-1)+k+1 && vec(x, n, incX) && vec(y, n, incY)))
+//@ panics iff !valid, before-writes
+//@ writes y[start(n,incY)+j*incY] for j in 0..n
+//@ witness i-k+j
+
+//@ func Implementation.Zhemv Implementation.Chemv props: C01(frame) C07(safety)
+//@ valid flagUL(uplo) && n >= 0 && lda >= max(1, n) && incX != 0 && incY != 0 &&
+//@       (n == 0 || (ge(a, n, n, lda) && vec(x, n, incX) && vec(y, n, incY)))
+//@ panics iff !valid, before-writes
+//@ writes y[start(n,incY)+k*incY] for k in 0..n
+
+//@ func Implementation.Zher Implementation.Cher props: C01(frame) C07(safety)
+//@ valid flagUL(uplo) && n >= 0 && lda >= max(1, n) && incX != 0 &&
+//@       (n == 0 || (vec(x, n, incX) && ge(a, n, n, lda)))
+//@ panics iff !valid, before-writes
+//@ writes a[i*lda+j] for i in 0..n, j in 0..n if (uplo == blas.Upper && j >= i) || (uplo == blas.Lower && j <= i)
+
+//@ func Implementation.Zher2 Implementation.Cher2 props: C01(frame) C07(safety)
+//@ valid flagUL(uplo) && n >= 0 && lda >= max(1, n) && incX != 0 && incY != 0 &&
+//@       (n == 0 || (vec(x, n, incX) && vec(y, n, incY) && ge(a, n, n, lda)))
+//@ panics iff !valid, before-writes
+//@ writes a[i*lda+j] for i in 0..n, j in 0..n if (uplo == blas.Upper && j >= i) || (uplo == blas.Lower && j <= i)
+
+//@ func Implementation.Zhpmv Implementation.Chpmv props: C01(frame) C07(safety)
+//@ valid flagUL(uplo) && n >= 0 && incX != 0 && incY != 0 &&
+//@       (n == 0 || (len(ap) >= n*(n+1)/2 && vec(x, n, incX) && vec(y, n, incY)))
+//@ panics iff !valid, before-writes
+//@ writes y[start(n,incY)+k*incY] for k in 0..n
+
+//@ func Implementation.Zhpr Implementation.Chpr props: C01(frame) C07(safety)
+//@ valid flagUL(uplo) && n >= 0 && incX != 0 &&
+//@       (n == 0 || (vec(x, n, incX) && len(ap) >= n*(n+1)/2))
+//@ panics iff !valid, before-writes
+//@ writes ap[k] for k in 0..n*(n+1)/2
+
+//@ func Implementation.Zhpr2 Implementation.Chpr2 props: C01(frame) C07(safety)
+//@ valid flagUL(uplo) && n >= 0 && incX != 0 && incY != 0 &&
+//@       (n == 0 || (vec(x, n, incX) && vec(y, n, incY) && len(ap) >= n*(n+1)/2))
+//@ panics iff !valid, before-writes
+//@ writes ap[k] for k in 0..n*(n+1)/2
+
+//@ func Implementation.Ztbmv Implementation.Ctbmv Implementation.Ztbsv Implementation.Ctbsv props: C01(frame) C07(safety)
+//@ valid flagUL(uplo) && flagT(trans) && flagD(diag) && n >= 0 && k >= 0 && lda >= k+1 && incX != 0 &&
+//@       (n == 0 || (len(a) >= lda*(n-1)+k+1 && vec(x, n, incX)))
+//@ panics iff !valid, before-writes
+//@ writes x[start(n,incX)+j*incX] for j in 0..n
+//@ witness i-kk+it
+
+//@ func Implementation.Ztpmv Implementation.Ctpmv Implementation.Ztpsv Implementation.Ctpsv props: C01(frame) C07(safety)
+//@ valid flagUL(uplo) && flagT(trans) && flagD(diag) && n >= 0 && incX != 0 &&
+//@       (n == 0 || (len(ap) >= n*(n+1)/2 && vec(x, n, incX)))
+//@ panics iff !valid, before-writes
+//@ writes x[start(n,incX)+k*incX] for k in 0..n
+
+//@ func Implementation.Ztrmv Implementation.Ctrmv Implementation.Ztrsv Implementation.Ctrsv props: C01(frame) C07(safety)
+//@ valid flagUL(uplo) && flagT(trans) && flagD(diag) && n >= 0 && lda >= max(1, n) && incX != 0 &&
+//@       (n == 0 || (ge(a, n, n, lda) && vec(x, n, incX)))
+//@ panics iff !valid, before-writes
+//@ writes x[start(n,incX)+k*incX] for k in 0..n
+
+//@ func Implementation.Zgemm Implementation.Cgemm props: C01(frame) C07(safety)
+//@ let rowA = ite(tA != blas.NoTrans, k, m)
+//@ let colA = ite(tA != blas.NoTrans, m, k)
+//@ let rowB = ite(tB != blas.NoTrans, n, k)
+//@ let colB = ite(tB != blas.NoTrans, k, n)
+//@ valid flagT(tA) && flagT(tB) && m >= 0 && n >= 0 && k >= 0 &&
+//@       lda >= max(1, colA) && ldb >= max(1, colB) && ldc >= max(1, n) &&
+//@       (m == 0 || n == 0 || (ge(a, rowA, colA, lda) && ge(b, rowB, colB, ldb) && ge(c, m, n, ldc)))
+//@ panics iff !valid, before-writes
+//@ writes c[i*ldc+j] for i in 0..m, j in 0..n
+
+//@ func Implementation.Zhemm Implementation.Chemm Implementation.Zsymm Implementation.Csymm props: C01(frame) C07(safety)
+//@ let ka = ite(side == blas.Left, m, n)
+//@ valid flagS(side) && flagUL(uplo) && m >= 0 && n >= 0 &&
+//@       lda >= max(1, ka) && ldb >= max(1, n) && ldc >= max(1, n) &&
+//@       (m == 0 || n == 0 || (ge(a, ka, ka, lda) && ge(b, m, n, ldb) && ge(c, m, n, ldc)))
+//@ panics iff !valid, before-writes
+//@ writes c[i*ldc+j] for i in 0..m, j in 0..n
+
+//@ func Implementation.Zherk Implementation.Cherk props: C01(frame) C07(safety)
+//@ let row = ite(trans == blas.NoTrans, n, k)
+//@ let col = ite(trans == blas.NoTrans, k, n)
+//@ valid flagUL(uplo) && flagTH(trans) && n >= 0 && k >= 0 && lda >= max(1, col) && ldc >= max(1, n) &&
+//@       (n == 0 || (ge(a, row, col, lda) && ge(c, n, n, ldc)))
+//@ panics iff !valid, before-writes
+//@ writes c[i*ldc+j] for i in 0..n, j in 0..n if (uplo == blas.Upper && j >= i) || (uplo == blas.Lower && j <= i)
+
+//@ func Implementation.Zher2k Implementation.Cher2k props: C01(frame) C07(safety)
+//@ let row = ite(trans == blas.NoTrans, n, k)
+//@ let col = ite(trans == blas.NoTrans, k, n)
+//@ valid flagUL(uplo) && flagTH(trans) && n >= 0 && k >= 0 && lda >= max(1, col) && ldb >= max(1, col) && ldc >= max(1, n) &&
+//@       (n == 0 || (ge(a, row, col, lda) && ge(b, row, col, ldb) && ge(c, n, n, ldc)))
+//@ panics iff !valid, before-writes
+//@ writes c[i*ldc+j] for i in 0..n, j in 0..n if (uplo == blas.Upper && j >= i) || (uplo == blas.Lower && j <= i)
+
+//@ func Implementation.Zsyrk Implementation.Csyrk props: C01(frame) C07(safety)
+//@ let row = ite(trans == blas.NoTrans, n, k)
+//@ let col = ite(trans == blas.NoTrans, k, n)
+//@ valid flagUL(uplo) && flagTS(trans) && n >= 0 && k >= 0 && lda >= max(1, col) && ldc >= max(1, n) &&
+//@       (n == 0 || (ge(a, row, col, lda) && ge(c, n, n, ldc)))
+//@ panics iff !valid, before-writes
+//@ writes c[i*ldc+j] for i in 0..n, j in 0..n if (uplo == blas.Upper && j >= i) || (uplo == blas.Lower && j <= i)
+
+//@ func Implementation.Zsyr2k Implementation.Csyr2k props: C01(frame) C07(safety)
+//@ let row = ite(trans == blas.NoTrans, n, k)
+//@ let col = ite(trans == blas.NoTrans, k, n)
+//@ valid flagUL(uplo) && flagTS(trans) && n >= 0 && k >= 0 && lda >= max(1, col) && ldb >= max(1, col) && ldc >= max(1, n) &&
+//@       (n == 0 || (ge(a, row, col, lda) && ge(b, row, col, ldb) && ge(c, n, n, ldc)))
+//@ panics iff !valid, before-writes
+//@ writes c[i*ldc+j] for i in 0..n, j in 0..n if (uplo == blas.Upper && j >= i) || (uplo == blas.Lower && j <= i)
+
+//@ func Implementation.Ztrmm Implementation.Ctrmm props: C01(frame) C07(safety)
+//@ let ka = ite(side == blas.Left, m, n)
+//@ valid flagS(side) && flagUL(uplo) && flagT(trans) && flagD(diag) && m >= 0 && n >= 0 &&
+//@       lda >= max(1, ka) && ldb >= max(1, n) &&
+//@       (m == 0 || n == 0 || (ge(a, ka, ka, lda) && ge(b, m, n, ldb)))
+//@ panics iff !valid, before-writes
+//@ writes b[i*ldb+j] for i in 0..m, j in 0..n
+
+//@ func Implementation.Ztrsm Implementation.Ctrsm props: C01(frame) C07(safety)
+//@ let ka = ite(side == blas.Left, m, n)
+//@ valid flagS(side) && flagUL(uplo) && flagT(transA) && flagD(diag) && m >= 0 && n >= 0 &&
+//@       lda >= max(1, ka) && ldb >= max(1, n) &&
+//@       (m == 0 || n == 0 || (ge(a, ka, ka, lda) && ge(b, m, n, ldb)))
+//@ panics iff !valid, before-writes
+//@ writes b[i*ldb+j] for i in 0..m, j in 0..n
